@@ -246,8 +246,14 @@ func ext۰reflect۰Value۰Kind(fr *frame, args []value) value {
 }
 
 func ext۰reflect۰Value۰String(fr *frame, args []value) value {
-	// Signature: func (reflect.Value) string
-	return toString(rV2V(args[0]))
+	v := rV2V(args[0])
+	if isStr(v) {
+		return v
+	}
+	if v == nil {
+		return "<invalid Value>"
+	}
+	return "<" + rV2T(args[0]).t.String() + " Value>"
 }
 
 func ext۰reflect۰Value۰Type(fr *frame, args []value) value {
@@ -373,8 +379,11 @@ func ext۰reflect۰Value۰Index(fr *frame, args []value) value {
 }
 
 func ext۰reflect۰Value۰Bool(fr *frame, args []value) value {
-	// Signature: func (reflect.Value) bool
-	return rV2V(args[0]).(bool)
+	v := rV2V(args[0])
+	if !isBoolish(v) {
+		panic(targetPanic{iface{fr.i.runtimeErrorString, "reflect: call of reflect.Value.Bool on non-bool Value"}})
+	}
+	return v
 }
 
 func ext۰reflect۰Value۰CanAddr(fr *frame, args []value) value {
